@@ -21,6 +21,8 @@ inductive Prog (α ρ : Type)
   | done (r : Option ρ)
   | call (m : MethodInfo) (a : α) (k : ρ → Prog α ρ)
   | log (e : LogEntry α) (k : Prog α ρ)
+  /-- user code lends out a clone of the instance it was given: `u.make_ref(u.clone())` -/
+  | park (k : Prog α ρ)
 
 /-- sequential composition of user code -/
 def Prog.bind {α ρ} : Prog α ρ → (ρ → Prog α ρ) → Prog α ρ
@@ -28,6 +30,7 @@ def Prog.bind {α ρ} : Prog α ρ → (ρ → Prog α ρ) → Prog α ρ
   | .done (some v), f => f v
   | .call m a k, f => .call m a fun v => (k v).bind f
   | .log e k, f => .log e (k.bind f)
+  | .park k, f => .park (k.bind f)
 
 structure Env (α ρ : Type) where
   answer : Nat → MethodInfo → α → Prog α ρ
@@ -49,45 +52,51 @@ structure CallResult (α ρ : Type) where
       level `l` (0 = the instance itself) runs on the `DefaultImplDelegator` stored in that
       instance's cell, i.e. on helper level `l+1`, which is created on first use. -/
   helperDepth : Nat := 0
+  /-- clones parked in value chains of the instance (or of its helpers) during the call -/
+  parked : Nat := 0
 
 mutual
 /-- one call of a generated trait method on an instance (helper level `lvl`) sharing `s` -/
 def callMethod {α ρ} (env : Env α ρ) : Nat → Nat → Shared α ρ → MethodInfo → α → CallResult α ρ
-  | 0, _, s, _, _ => ⟨s, [], .outOfFuel, 0⟩
+  | 0, _, s, _, _ => ⟨s, [], .outOfFuel, 0, 0⟩
   | fuel+1, lvl, s, m, a =>
     match call s m a with
-    | (s, .ret v) => ⟨s, [], .ret v, 0⟩
-    | (s, .err e) => ⟨s, [], .mockPanic e, 0⟩
-    | (s, .userPanic) => ⟨s, [], .userPanic, 0⟩
+    | (s, .ret v) => ⟨s, [], .ret v, 0, 0⟩
+    | (s, .err e) => ⟨s, [], .mockPanic e, 0, 0⟩
+    | (s, .userPanic) => ⟨s, [], .userPanic, 0, 0⟩
     | (s, .contAnswer f) =>
       -- the answer function receives the instance it was called on
       runProg env fuel lvl s (env.answer f m a)
     | (s, .contUnmock) =>
       if m.unmockFn then
         runProg env fuel lvl s (env.real m a)
-      else ⟨s.induce (.cannotUnmock m), [], .mockPanic (.cannotUnmock m), 0⟩
+      else ⟨s.induce (.cannotUnmock m), [], .mockPanic (.cannotUnmock m), 0, 0⟩
     | (s, .contDefault) =>
       if m.hasDefaultImpl then
         -- the default body runs on the delegator: nested calls happen one helper level down
         let r := runProg env fuel (lvl + 1) s (env.dflt m a)
         { r with helperDepth := max (lvl + 1) r.helperDepth }
-      else ⟨s.induce (.noDefaultImpl m), [], .mockPanic (.noDefaultImpl m), 0⟩
+      else ⟨s.induce (.noDefaultImpl m), [], .mockPanic (.noDefaultImpl m), 0, 0⟩
 
 /-- run user code; nested calls hit the same shared state -/
 def runProg {α ρ} (env : Env α ρ) : Nat → Nat → Shared α ρ → Prog α ρ → CallResult α ρ
-  | _, _, s, .done none => ⟨s, [], .userPanic, 0⟩
-  | _, _, s, .done (some v) => ⟨s, [], .ret v, 0⟩
-  | 0, _, s, .call _ _ _ => ⟨s, [], .outOfFuel, 0⟩
-  | 0, _, s, .log _ _ => ⟨s, [], .outOfFuel, 0⟩
+  | _, _, s, .done none => ⟨s, [], .userPanic, 0, 0⟩
+  | _, _, s, .done (some v) => ⟨s, [], .ret v, 0, 0⟩
+  | 0, _, s, .call _ _ _ => ⟨s, [], .outOfFuel, 0, 0⟩
+  | 0, _, s, .log _ _ => ⟨s, [], .outOfFuel, 0, 0⟩
+  | 0, _, s, .park _ => ⟨s, [], .outOfFuel, 0, 0⟩
   | fuel+1, lvl, s, .log e k =>
     let r := runProg env fuel lvl s k
     { r with log := e :: r.log }
+  | fuel+1, lvl, s, .park k =>
+    let r := runProg env fuel lvl s k
+    { r with parked := r.parked + 1 }
   | fuel+1, lvl, s, .call m a k =>
     let r := callMethod env fuel lvl s m a
     match r.out with
     | .ret v =>
       let r2 := runProg env fuel lvl r.shared (k v)
-      { r2 with log := r.log ++ r2.log, helperDepth := max r.helperDepth r2.helperDepth }
+      { r2 with log := r.log ++ r2.log, helperDepth := max r.helperDepth r2.helperDepth, parked := r.parked + r2.parked }
     | _ => r
 end
 
